@@ -47,6 +47,11 @@ const (
 	evCutLast = "hub-staging-cut@last"
 )
 
+// chainWithBefore (thorough): the request is lost / the spoke dies BEFORE the hub sees anything. Neither touches
+// the checkpoint or the staged bytes (only the attempt counter / the in_flight mark), and the 2-file universe
+// enumerates both on every call, so quick leaves them out of the chain alphabet.
+var chainWithBefore bool
+
 var (
 	gridNames       = []string{"0", "1", "mid", "last"}
 	chainEventKinds = []string{evHubSweep, evCut0, evCut1, evCutMid, evCutLast}
@@ -136,8 +141,12 @@ func chainPutOutcomes(n int) (faults, crashes []string) {
 		faults = append(faults, "short@"+g, "short@"+g+"+lost-ack")
 		crashes = append(crashes, "short@"+g+"+crash")
 	}
-	faults = append(faults, oDropA, oDropB, oCorrupt, oShortCorrupt)
-	crashes = append(crashes, oCrashA, oCrashB)
+	faults = append(faults, oDropA, oCorrupt, oShortCorrupt)
+	crashes = append(crashes, oCrashA)
+	if chainWithBefore {
+		faults = append(faults, oDropB)
+		crashes = append(crashes, oCrashB)
+	}
 	return
 }
 
@@ -146,21 +155,20 @@ type stagedFile struct {
 	size     int64
 }
 
+// stagingFiles: what the hub has staged for the files of this universe (the staging object itself or the
+// backend's in-progress "<staging>.part").
 func (w *world) stagingFiles() []stagedFile {
 	var out []stagedFile
 	root := filepath.Join(w.dir, "hub")
-	filepath.WalkDir(filepath.Join(root, edgesync.StagingPrefix), func(p string, d fs.DirEntry, err error) error {
-		if err != nil || d.IsDir() {
-			return nil
+	for _, p := range universe(w.h) {
+		base := filepath.ToSlash(filepath.Join(edgesync.StagingPrefix, spokeID, p))
+		for _, rel := range []string{base, base + ".part"} {
+			abs := filepath.Join(root, filepath.FromSlash(rel))
+			if info, err := os.Stat(abs); err == nil && !info.IsDir() {
+				out = append(out, stagedFile{abs, rel, info.Size()})
+			}
 		}
-		info, ierr := d.Info()
-		if ierr != nil {
-			return nil
-		}
-		rel, _ := filepath.Rel(root, p)
-		out = append(out, stagedFile{p, filepath.ToSlash(rel), info.Size()})
-		return nil
-	})
+	}
 	sort.Slice(out, func(i, j int) bool { return out[i].rel < out[j].rel })
 	return out
 }
